@@ -174,6 +174,13 @@ def run(check):
             seq = [rng.choice(["D", "E1", "S", "Z", "G", "X"]) for _ in range(rng.randrange(2, 6))]
             plan = {"sites": [{"point": pt, "hit": rng.choice([1, 1, 2, 3]), "action": rng.choice(["close", "force_close"])}]} if pt else None
             add(sn, seq, overlapped=True, plan=plan)
+        # the step goroutine held for a while at one schedule point (e.g. inside a notification, or between receiving the plugin's
+        # result and leaving the running stage) while the plugin finishes; a stop request / close then arrives in that window
+        combos = [(pt, sn, tail) for pt in points for sn in ("success", "error-output", "hang-obey") for tail in ("X", "C", "F", "X0")]
+        random.Random(derive_seed(check.seed, "c12-hold")).shuffle(combos)
+        for (pt, sn, tail) in combos[:check.pick(300, len(combos))]:
+            for hit in (1, 2):
+                add(sn, ["D", "E1", "S", "Z", tail, "Z", "Z"], overlapped=True, plan={"sites": [{"point": pt, "hit": hit, "ms": 30}]})
         out = rn.run_cases(cases, per_case_timeout=60)
     stats = {"enumerated_sequences": 0, "overlapped_histories": 0, "callbacks_observed": 0, "porcupine_histories": 0, "porcupine_unknown": 0, "completion_stages": {}}
     for cid in sorted(out):
